@@ -96,7 +96,7 @@ def cases(draw, n_classes=3, n_objects=4):
     items = []
     if classes:
         k = min(len(classes), n_classes)
-        idxs = draw(st.lists(st.integers(0, len(classes) - 1), min_size=k, max_size=k, unique=True))
+        idxs = gencase.pick_classes(draw, an, classes, k)
         vg = valuegen.ValueGen(an, safe_strings=False, big_lengths=False)
         pick = lambda seq: draw(st.sampled_from(list(seq)))  # noqa
         for i in idxs:
